@@ -334,6 +334,11 @@ class NestedChildren(WrappingQuery):
         def is_active(self):
             return self._nextchild < self._nextparent
 
+        def supports_block_quality(self):
+            # The wrapped matcher iterates over *parents*; its blocks and
+            # qualities say nothing about the children this matcher returns
+            return False
+
         def replace(self, minquality=0):
             return self
 
